@@ -60,6 +60,14 @@ def _format_arg(arg: Any) -> str:
     return f'<ERROR FORMATTING {type(arg)} ARGUMENT>'
 
 
+def _format_tag(tag: Any) -> str:
+  """Returns str(tag), returning a constant string if str() fails."""
+  try:
+    return str(tag)
+  except Exception:  # pylint: disable=broad-except
+    return f'<ERROR FORMATTING {type(tag)} TAG>'
+
+
 def _make_message(
     current_path: daglish.Path,
     buildable: config_lib.Buildable,
@@ -89,7 +97,7 @@ def _make_message(
       continue  # User supplied it, all good.
     tags = buildable.__argument_tags__.get(param, None)
     if tags:
-      tag_str = ' '.join(sorted(str(tag) for tag in tags))
+      tag_str = ' '.join(sorted(_format_tag(tag) for tag in tags))
       unset_arg_tags.append(f' - {param}: {tag_str}')
   if unset_arg_tags:
     tag_details = '\n'.join(unset_arg_tags)
